@@ -86,6 +86,10 @@ def sp_forall(ex, e, st, exists=False, expand=True):
         tv = [x.at(0) if isinstance(x, Seq) else x for x in tv]
         if not any(has_ite(x) for x in tv):
             pats = [z3.MultiPattern(*tv) if len(tv) > 1 else tv[0]]
+        if len(tv) == 1 and z3.is_app(tv[0]) and tv[0].decl().name() == "here":
+            # a fact instantiated on demand: "for every MARKED v ..." - the marker is also a hypothesis of the body, so that such a fact can be
+            # re-established from another one of the same kind (the skolem constant of the goal is then marked)
+            body = z3.Implies(tv[0], body)
     full = z3.Implies(z3.And(*guard), body) if guard else body
     return z3.ForAll(vs, full, patterns=pats) if pats else z3.ForAll(vs, full)
 
